@@ -954,3 +954,14 @@ def index_scans(body, is_coll):
         out.append(dict(header=h, region=lbody, index_block=idx[0][0], remove_block=rem[0][0], remove_name=rem[0][2],
                         keep_blocks=sorted(set(incs)), well_formed=ok))
     return out
+
+
+def component_removals(prog, component):
+    """[(body, block, callee)] for calls that take a component whose type mentions `component` off an entity"""
+    out = []
+    for body in prog.bodies:
+        for b, t, fr in body.iter_calls():
+            if fr and any(component in a for a in fr.get("args", [])) and tail(fn_name(fr), 1) in (
+                    "remove", "take", "remove_by_id", "retain", "remove_with_requires", "clear", "try_remove"):
+                out.append((body, b, tail(fn_name(fr), 2)))
+    return out
